@@ -116,6 +116,14 @@ pub fn cell_oracle(c: &Cell) -> Verdict {
         if rel == Rel::Reject && t.depth() >= 1 {
             info.nontrivial = true;
         }
+        // the emptiest value of the type: empty collections, None
+        {
+            let mut sv = prefix_values();
+            if let Some((rel_min, res, model)) = car.add_witness_min(&mut sv, t, &ct, seed) {
+                check_bind(rel_min, &format!("{} (emptiest value)", c.carrier), t, &before, 2, &sv, &res, model.as_ref())?;
+                info = info.class(format!("ser_min_{rel_min:?}"));
+            }
+        }
         // the same through a whole row: (int, column)
         let specs = [
             ColumnSpec::owned("p".into(), ColumnType::Native(scylla_cql_core::frame::response::result::NativeType::Int), TableSpec::owned("ks".into(), "t".into())),
